@@ -524,6 +524,45 @@ def j_c07(case, resps):
     return out
 
 
+def j_c07n(case, resps):
+    """norm clauses on real-valued tangents of any magnitude, and the index range of Generator:
+    weightedNorm = sqrt(a^T W a) (W: the implementation's own InnerWeights, validated exactly by
+    j_c07 / C11), squaredWeightedNorm = a^T W a, inner(a,a) likewise; Generator(i) raises
+    invalid_argument exactly outside [0, DoF)."""
+    grp = case["group"]
+    n = gen.GROUPS[grp]["dof"]
+    a = case["a"]
+    out = []
+    it = iter(zip(case["reqs"], resps))
+    for i in case["idx"]:
+        line, r = next(it)
+        inr = 0 <= i < n
+        if inr and not r.startswith("ok"):
+            out.append(V("C07", grp, "generator", "status", case["tags"], line, "Generator(%d) raised: %s" % (i, r[:40]), float("inf"), 0))
+        if not inr and r.strip() != "err invalid_argument":
+            out.append(V("C07", grp, "generator", "status", case["tags"], line,
+                         "Generator(%d) out of range [0,%d) did not raise invalid_argument: %s" % (i, n, r[:40]), float("inf"), 0))
+    vals = {}
+    for nm in ("W", "wnorm", "sqw", "inner"):
+        line, r = next(it)
+        v, e = parse(r)
+        if v is None or not fin(v):
+            out.append(V("C07", grp, nm, "status", case["tags"], line, "no finite result: %s" % r[:40], float("inf"), 0))
+            return out
+        vals[nm] = (v, line)
+    W = vals["W"][0]
+    q = sum(mpf(a[i]) * mpf(W[i * n + j]) * mpf(a[j]) for i in range(n) for j in range(n))
+    ref = mp.sqrt(q)
+    for nm, want in (("wnorm", ref), ("sqw", q), ("inner", q)):
+        got = mpf(vals[nm][0][0])
+        tol = mpf(4e-15) * n * (want if want > 0 else 1) + mpf(5e-324)
+        if abs(got - want) > tol:
+            out.append(V("C07", grp, nm, "value", case["tags"], vals[nm][1],
+                         "%s is not %s of the tangent (got %.17g, expected %.17g)" % (nm, "the induced norm sqrt(a^T W a)" if nm == "wnorm" else "a^T W a", float(got), float(want)),
+                         abs(got - want), tol))
+    return out
+
+
 # ------------------------------------------------------------------ algorithms
 def _rel_angle(g, grp, TA, TB):
     return rot_angle_of_tangent(grp, [float(x) for x in g.log(mp.inverse(TA) * TB)])
@@ -904,7 +943,7 @@ def j_c11(case, resps):
     loose = D >= 8 and op in ("lplus", "lminus", "bracket")
 
     def close(a, b, scale):
-        if a == b or (a == 0 and b == 0):
+        if a == b or (a == 0 and b == 0) or (a != a and b != b):      # same value (NaN = NaN: e.g. J^-1 at its pole |theta| = 2 pi)
             return True
         return loose and abs(a - b) <= 1e-12 * max(1.0, scale)
 
@@ -941,6 +980,9 @@ def j_c11(case, resps):
 
     # split bundle output and the elements' outputs according to the shape
     vkey, jshapes = kind
+    if vkey in ("repsize", "dof", "dim") and case.get("mask") and len(jshapes) == 2:
+        # only the requested optional outputs are present (bit 0: first, bit 1: second)
+        jshapes = [sh for b, sh in enumerate(jshapes) if (case["mask"] >> b) & 1]
     vs = sum(e[vkey] for e in E) if vkey else None
     k = 0
     if vkey in ("repsize", "dof", "dim"):
@@ -1054,7 +1096,7 @@ def j_c17g(case, resps):
 
 
 STAGE2 = {"logexp": s2_logexp, "c04": s2_c04, "c16": s2_c16}
-JUDGES = {"c07": j_c07, "c04": j_c04, "c15": j_c15, "c15phi": j_c15phi, "c16": j_c16, "c16empty": j_c16empty,
+JUDGES = {"c07n": j_c07n, "c07": j_c07, "c04": j_c04, "c15": j_c15, "c15phi": j_c15phi, "c16": j_c16, "c16empty": j_c16empty,
           "c17": j_c17, "c17g": j_c17g, "c18": j_c18, "c18t": j_c18t, "c13": j_c13, "c11": j_c11, "c01": j_c01, "c02": j_c02, "c03a": j_c03_explog, "c03b": j_c03_logexp2,
           "c05": j_c05, "c06": j_c06, "c06adj": j_c06_adj}
 
@@ -1071,6 +1113,21 @@ def neg_rotation_part(group, X):
             has = True
         i += n
     return out if has else None
+
+
+def c07n_case(r, group, dbg=True):
+    n = gen.GROUPS[group]["dof"]
+    e = r.choice([0, -3, -6, -7, -8, -12, -30, -100, 3])      # squares stay in the normal range (no claim about underflow)
+    mag = 10.0 ** e * r.uniform(1, 9.99)
+    a = [mag * r.uniform(-1, 1) for _ in range(n)]
+    if r.random() < 0.2:
+        k = r.randrange(n)
+        a = [x if i == k else 0.0 for i, x in enumerate(a)]
+    idx = sorted(set([-3, -1, 0, n - 1, n, n + 1, n + 3, r.randrange(n)]))
+    reqs = [gen.req(dbg, "o", group, "generator", 0, [], [i]) for i in idx]
+    reqs += [gen.req(dbg, "o", group, "innerWeights", 0, []), gen.req(dbg, "o", group, "wnorm", 0, a),
+             gen.req(dbg, "o", group, "sqwnorm", 0, a), gen.req(dbg, "o", group, "inner", 0, a + a)]
+    return dict(prop="C07", group=group, kind="c07n", reqs=reqs, tags=["mag:1e%d" % e], a=a, idx=idx)
 
 
 def cases(prop, r, group, n, dbg=True):
@@ -1137,6 +1194,7 @@ def cases(prop, r, group, n, dbg=True):
             Hh = gg.hat([mpf(x) for x in a])
             reqs.append(gen.req(dbg, "o", group, "vee", 0, [float(Hh[i, j]) for i in range(gg.alg) for j in range(gg.alg)]))
             cs.append(dict(prop=prop, group=group, kind="c07", reqs=reqs, tags=["int:%d" % mag], a=a, b=b))
+            cs.append(c07n_case(r, group, dbg))
         elif prop == "C05":
             op = r.choice(["exp", "log", "inverse", "compose", "between", "rplus", "lplus", "rminus", "lminus", "act"])
             ang = ["zero", "denormal", "tiny", "small", "below-switch", "above-switch", "cuberoot-switch",
@@ -1258,11 +1316,11 @@ def cases_algo(prop, r, group, n, exe):
                     parts.append(split(v, "dim"))
                 a += v
                 tags += t[:3]
-            nmask = {"exp": 1, "log": 1, "inverse": 1}.get(op, 3 if len(shape[1]) == 2 else 0)
+            nmask = {"exp": 1, "log": 1, "inverse": 1}.get(op, r.choice([1, 2, 3, 3]) if len(shape[1]) == 2 else 0)
             reqs = [gen.req(dbg, "o", group, op, nmask, a)]
             for i, nm in enumerate(els):
                 reqs.append(gen.req(dbg, "o", nm, op, nmask, [x for p in parts for x in p[i]]))
-            cs.append(dict(prop=prop, group=group, kind="c11", op=op, shape=shape, reqs=reqs, tags=tags))
+            cs.append(dict(prop=prop, group=group, kind="c11", op=op, shape=shape, reqs=reqs, tags=tags + ["mask%d" % nmask], mask=nmask))
     elif prop == "C13":
         reqs, plan = [], []
         lin = lambda k: [gen.pick(r, gen.LIN_STRATA, ["zero", "tiny", "unit", "large"])[1] * r.choice([-1, 1]) for _ in range(k)]
